@@ -132,7 +132,7 @@ class AsyncWorld:
                 rec('connect', sid, None)
                 return do_effects_sync(w.beh.connect(sid, environ))
 
-            def on_message(sid, data):
+            def on_message(sid, data='<message handler called without its payload>'):      # tolerant signature, as many applications have
                 rec('message', sid, data)
                 return do_effects_sync(w.beh.message(sid, data))
             if legacy:
@@ -148,7 +148,7 @@ class AsyncWorld:
                 rec('connect', sid, None)
                 return await do_effects(w.beh.connect(sid, environ))
 
-            async def on_message(sid, data):
+            async def on_message(sid, data='<message handler called without its payload>'):      # tolerant signature, as many applications have
                 rec('message', sid, data)
                 return await do_effects(w.beh.message(sid, data))
             if legacy:
@@ -385,8 +385,12 @@ class AsyncWorld:
                 if ws.server_closed or ws.client_closed:
                     sent.append(dict(ev, _refused=True))
                     raise OSError('websocket is closed')
-                if getattr(ws, 'stall_send', False):
-                    # back-pressure: the peer is not reading, the gateway's send does not complete until it does
+                st_ = getattr(ws, 'stall_send', False)
+                if st_:
+                    # back-pressure: the peer is not reading, the gateway's send does not complete until it does (True: every
+                    # write parks; n: only the next n writes do - the socket buffer has room again afterwards)
+                    if st_ is not True:
+                        ws.stall_send = st_ - 1
                     ws.stalled = getattr(ws, 'stalled', 0) + 1
                     f = w.loop.create_future()
                     ws._stall_futs = getattr(ws, '_stall_futs', []) + [f]
